@@ -765,13 +765,28 @@ def r6_quotes(prog, res):
     empty_guard = False
     # variables holding the length of the parameter: initialised from strlen(<param>)
     pd = f.params[0]["d"] if f.params else None
+    # the text the loop walks: the parameter itself, or a local copy the loop cursor starts from
+    walked = {pd}
+    if loops:
+        cond_refs = {y.get("d") for y in walk(loops[0]["ch"][0]) if y["k"] == "Ref"}
+        for x in f.walk():
+            src_ = None
+            if x["k"] == "Var" and x.get("d") in cond_refs and x.get("ch") and x["ch"][0] is not None:
+                src_ = strip(x["ch"][0])
+            elif x["k"] == "Assign" and strip(x["ch"][0]) is not None and strip(x["ch"][0]).get("d") in cond_refs:
+                src_ = strip(x["ch"][1])
+            if src_ is not None and src_["k"] == "Ref" and src_.get("dk") == "local":
+                walked.add(src_["d"])
     lens = set()
     for x in f.walk():
+        i = tgt = None
         if x["k"] == "Var" and x.get("ch"):
-            i = strip(x["ch"][0])
-            if i is not None and i["k"] == "Call" and (i.get("fn") or "").split("::")[-1] in ("strlen", "__builtin_strlen") and \
-                    strip(i["ch"][0]) is not None and strip(i["ch"][0]).get("d") == pd:
-                lens.add(x["d"])
+            i, tgt = strip(x["ch"][0]), x["d"]
+        elif x["k"] == "Assign" and strip(x["ch"][0]) is not None and strip(x["ch"][0])["k"] == "Ref":
+            i, tgt = strip(x["ch"][1]), strip(x["ch"][0]).get("d")
+        if i is not None and i["k"] == "Call" and (i.get("fn") or "").split("::")[-1] in ("strlen", "__builtin_strlen") and \
+                i.get("ch") and strip(i["ch"][0]) is not None and strip(i["ch"][0]).get("d") in walked:
+            lens.add(tgt)
 
     def is_empty_test(c):
         """c is true exactly when the string is empty:  len == 0, !len, *in == 0, !*in"""
@@ -788,13 +803,13 @@ def r6_quotes(prog, res):
                         u = strip(u["ch"][0])
                     if u["k"] == "Ref" and u.get("d") in lens:
                         return True
-                    if u["k"] == "Unary" and u.get("op") == "*" and strip(u["ch"][0]) is not None and strip(u["ch"][0]).get("d") == pd:
+                    if u["k"] == "Unary" and u.get("op") == "*" and strip(u["ch"][0]) is not None and strip(u["ch"][0]).get("d") in walked:
                         return True
         if c["k"] == "Unary" and c.get("op") == "!":
             u = strip(c["ch"][0])
             if u is not None and u["k"] == "Ref" and u.get("d") in lens:
                 return True
-            if u is not None and u["k"] == "Unary" and u.get("op") == "*" and strip(u["ch"][0]) is not None and strip(u["ch"][0]).get("d") == pd:
+            if u is not None and u["k"] == "Unary" and u.get("op") == "*" and strip(u["ch"][0]) is not None and strip(u["ch"][0]).get("d") in walked:
                 return True
         return False
 
@@ -915,6 +930,69 @@ def r7_chain_flattening(prog, res):
     res.floor("R7.flattened_chain_is_associative", "operators routed to a paren-eliding printer", n, 5)
 
 
+def r8_quote_escape(prog, res):
+    """The scanner replaces each pair of apostrophes inside a string literal by one; the printer has to put the pair back, otherwise
+    'it''s' is printed as 'it's', which does not parse.  (1) confirm the scanner's step, (2) the printer of un-encoded string
+    literals copies the text through a loop that writes an extra apostrophe in front of each apostrophe, and prints only the copy."""
+    lx = prog.one("SCANprocess_string")
+    if lx is None:
+        res.broke("anchor vanished: SCANprocess_string")
+        return
+    collapses = any(c["k"] == "Call" and (c.get("fn") or "").endswith("strncmp") and any(y["k"] == "Str" and y.get("s") == "''" for y in walk(c)) for c in lx.walk())
+    pr = prog.one("breakLongStr")
+    if pr is None:
+        res.broke("anchor vanished: breakLongStr")
+        return
+    pd = pr.params[0]["d"] if pr.params else None
+    doubles = False
+    for x in pr.walk():
+        if x["k"] != "If":
+            continue
+        c = strip(x["ch"][0])
+        if c is None or c["k"] != "Binary" or c.get("op") != "==":
+            continue
+        vals = [strip(y) for y in c["ch"]]
+        if not any(v is not None and v.get("val") == 39 for v in vals):
+            continue
+        stores = [y for y in walk(x["ch"][1]) if y["k"] == "Assign" and strip(y["ch"][0]) is not None and strip(y["ch"][0])["k"] == "Unary" and
+                  strip(y["ch"][0]).get("op") == "*" and (strip(y["ch"][1]) or {}).get("val") == 39]
+        in_loop = any(a["k"] in ("For", "While", "Do") for a in pr.ancestors(x))
+        if stores and in_loop:
+            doubles = True
+    prints_param = [c for c in pr.calls() if (c.get("fn") or "") in ("raw", "wrap") and any(y["k"] == "Ref" and y.get("d") == pd for a in call_args(c)[1:] for y in walk(a))]
+    ok = (not collapses) or (doubles and not prints_param)
+    res.add("R8.apostrophes_doubled_again", "R8|src/exppp/exppp.c|breakLongStr|apostrophe", pr.where(prints_param[0]) if prints_param else pr.where(), ok,
+            "the scanner collapses '' to ' and the printer writes the pair back before printing (only the escaped copy is printed)" if ok else
+            "the scanner (SCANprocess_string) collapses each '' of a string literal to a single ', but breakLongStr %s: a literal containing an "
+            "apostrophe is printed as text that does not parse" % ("prints the parameter text itself" if prints_param else "has no step that doubles apostrophes"))
+
+
+def r9_parameter_list_guarded(prog, res):
+    """ALGargs_out prints `name, name : type; ...` and closes with the type of the last group: for an empty list it has no type to print
+    (NULL).  Every caller therefore prints the parenthesised list only under a test of the parameter list (a FUNCTION or PROCEDURE
+    without formal parameters has no parentheses at all)."""
+    g = prog.one("ALGargs_out")
+    if g is None:
+        res.broke("anchor vanished: ALGargs_out")
+        return
+    n = 0
+    for f in prog.all_functions():
+        if f.component != "exppp":
+            continue
+        for c in f.calls():
+            if c.get("fk") != g.key:
+                continue
+            n += 1
+            a0 = strip(call_args(c)[0])
+            ap = expr_str(a0) if a0 is not None else "?"
+            guarded = any(pol and any(expr_str(strip(y)) == ap for y in walk(cn)) for cn, pol in known_facts(f, c))
+            res.add("R9.parameter_list_guarded", "R9|%s|%s|ALGargs_out" % (f.relfile(), f.name), f.where(c), guarded,
+                    "the formal parameter list is printed only when `%s` is there" % ap if guarded else
+                    "%s prints the parameter list of every %s, also of one without formal parameters: ALGargs_out then passes a NULL type to "
+                    "TYPE_head_out (crash), and `name()` would not be EXPRESS anyway" % (f.name, "procedure" if "PROC" in f.name else "algorithm"))
+    res.floor("R9.parameter_list_guarded", "callers of ALGargs_out", n, 2)
+
+
 def run(prog, res, tier):
     gr = Grammar(prog, res)
     if not gr.ok:
@@ -929,3 +1007,5 @@ def run(prog, res, tier):
     r5_real(prog, res)
     r6_quotes(prog, res)
     r7_chain_flattening(prog, res)
+    r8_quote_escape(prog, res)
+    r9_parameter_list_guarded(prog, res)
